@@ -20,7 +20,7 @@ def stmt_obligations(tier: str, seed: int, mode: str):
     from props import stmtctx
 
     obls = []
-    ctxs = stmtctx.select(tier, seed, 36 if mode == "errors" else 48)
+    ctxs = stmtctx.select(tier, seed, 30)
     if tier != "quick":
         # thorough: a seed-rotated third of all contexts (the whole set is explored by tools/stmt_sweep.py)
         ctxs = [c for i, c in enumerate(ctxs) if i % 3 == seed % 3]
